@@ -503,7 +503,7 @@ func replayTag(toks []string) string {
 
 // history i of the run
 func (g *gen) history(i int) ([]string, string, bool) {
-	cfg := []string{"cfg", "1", "0", "1", "0", "1"}
+	cfg := []string{"cfg", "1", "0", "1", "0", "1", "0"}
 	kind := g.rnd(100)
 	switch {
 	case kind < 3: // real first-frame timeout, a slow-loris client
